@@ -124,6 +124,26 @@ where
     B: Actor<Msg = A::Msg, Timer = A::Timer, Random = A::Random>,
     A::Msg: Debug + Clone,
 {
+    lockstep_rep(adapter, ma, mb, strip_b, steps, seed, None)
+}
+
+/// The representative functions of both systems, for adapters whose state implements `Rewrite`.
+pub type RepFns<A, B> = (fn(&ActorModelState<A, ()>) -> ActorModelState<A, ()>, fn(&ActorModelState<B, ()>) -> ActorModelState<B, ()>);
+
+pub fn lockstep_rep<A, B>(
+    adapter: &str,
+    ma: &ActorModel<A, (), ()>,
+    mb: &ActorModel<B, (), ()>,
+    strip_b: fn(&str) -> String,
+    steps: usize,
+    seed: u64,
+    rep: Option<RepFns<A, B>>,
+) -> LockOutcome
+where
+    A: Actor,
+    B: Actor<Msg = A::Msg, Timer = A::Timer, Random = A::Random>,
+    A::Msg: Debug + Clone,
+{
     fn id(s: &str) -> String {
         s.to_string()
     }
@@ -146,16 +166,35 @@ where
         }
         let cur_a = gdump(&sa, id);
         let cur_b = gdump(&sb, strip_b);
+        if let Some((ra, rb)) = rep {
+            // symmetry reduction must see the wrapped system as it sees the bare one (ids of actors
+            // that do not exist make representative() panic in both: skipped)
+            let pa = std::panic::catch_unwind(std::panic::AssertUnwindSafe(|| gdump(&ra(&sa), id)));
+            let pb = std::panic::catch_unwind(std::panic::AssertUnwindSafe(|| gdump(&rb(&sb), strip_b)));
+            if let (Ok(pa), Ok(pb)) = (pa, pb) {
+                c.inc("lockstep_representatives_compared");
+                if pa != pb {
+                    v.push(Violation::new("C15", format!("{}:representative", adapter), format!("representative() of the wrapped system differs from that of the bare one in {}: bare {:?} vs wrapped {:?}", diff(&pa, &pb), pa, pb)));
+                    break;
+                }
+            }
+        }
         let mut aa = Vec::new();
         ma.actions(&sa, &mut aa);
         let mut ab = Vec::new();
         mb.actions(&sb, &mut ab);
         // effective steps by action rendering
+        // whether the model takes the action at all (a self-loop is a transition, an ignored action is
+        // none: the difference decides whether a state is terminal for eventually-properties)
+        let mut raw_a: BTreeMap<String, (&'static str, bool)> = BTreeMap::new();
+        let mut raw_b: BTreeMap<String, (&'static str, bool)> = BTreeMap::new();
         let mut ea: BTreeMap<String, (&'static str, ActorModelState<A, ()>, GDump)> = BTreeMap::new();
         for a in aa {
             let key = format!("{:?}", a);
             let kind = event_kind(&a);
-            if let Some(nx) = ma.next_state(&sa, a) {
+            let nx = ma.next_state(&sa, a);
+            raw_a.insert(key.clone(), (kind, nx.is_some()));
+            if let Some(nx) = nx {
                 let d = gdump(&nx, id);
                 if d != cur_a {
                     ea.insert(key, (kind, nx, d));
@@ -166,7 +205,9 @@ where
         for a in ab {
             let key = format!("{:?}", a);
             let kind = event_kind(&a);
-            if let Some(nx) = mb.next_state(&sb, a) {
+            let nx = mb.next_state(&sb, a);
+            raw_b.insert(key.clone(), (kind, nx.is_some()));
+            if let Some(nx) = nx {
                 let d = gdump(&nx, strip_b);
                 if d != cur_b {
                     eb.insert(key, (kind, nx, d));
@@ -186,6 +227,19 @@ where
         for (k, (kind, _, _)) in &eb {
             if !ea.contains_key(k) {
                 v.push(Violation::new("C15", format!("{}:{}", adapter, kind), format!("step {} changes the wrapped system but not the bare one", k)));
+            }
+        }
+        if v.is_empty() && raw_a != raw_b {
+            for (k, (kind, some)) in &raw_a {
+                match raw_b.get(k) {
+                    Some((_, s2)) if s2 == some => {}
+                    other => v.push(Violation::new("C15", format!("{}:{}", adapter, kind), format!("action {}: the bare system {} it, the wrapped system {}", k, if *some { "takes" } else { "ignores" }, match other { Some((_, true)) => "takes it", Some((_, false)) => "ignores it", None => "does not offer it" }))),
+                }
+            }
+            for (k, (kind, _)) in &raw_b {
+                if !raw_a.contains_key(k) {
+                    v.push(Violation::new("C15", format!("{}:{}", adapter, kind), format!("action {} is offered by the wrapped system only", k)));
+                }
             }
         }
         if !v.is_empty() || ea.is_empty() {
@@ -222,6 +276,9 @@ pub struct AdapterScenario {
     /// vec client script: (dst, tag)
     #[serde(default)]
     pub script: Vec<(u8, u8)>,
+    /// all destinations are existing actors (so that representative() is defined on every state)
+    #[serde(default)]
+    pub clamped: bool,
 }
 
 fn net_of<Msg: Clone + Debug + Eq + Hash>(kind: NetKind) -> Network<Msg> {
@@ -436,10 +493,14 @@ pub fn gen_adapter(seed: u64) -> AdapterScenario {
     let mut sys = gen_system(&mut rng, &g);
     sys.init_net.clear();
     sys.hist = HCfg { rec_in: 0, rec_out: 0, cap: 0 };
+    let clamped = adapter == "woregister" && rng.chance(2, 3);
+    if clamped {
+        super::clamp_ids(&mut sys);
+    }
     let n = sys.tables.len();
     let positions = (0..n).map(|_| rng.below(3) as u8).collect();
     let script = (0..rng.below(5)).map(|_| (rng.below(n as u64 + 1) as u8, rng.below(g.tags as u64) as u8)).collect();
-    AdapterScenario { adapter: adapter.to_string(), sys, positions, steps: rng.range(5, 60) as usize, walk_seed: rng.next_u64(), script }
+    AdapterScenario { adapter: adapter.to_string(), sys, positions, steps: rng.range(5, 60) as usize, walk_seed: rng.next_u64(), script, clamped }
 }
 
 pub fn run_adapter(sc: &AdapterScenario) -> LockOutcome {
@@ -477,7 +538,8 @@ pub fn run_adapter(sc: &AdapterScenario) -> LockOutcome {
         "woregister" => {
             let bare: Vec<WORegScript> = tables.iter().map(|t| WORegScript(t.clone())).collect();
             let wrapped: Vec<WORegisterActor<WORegScript>> = bare.iter().cloned().map(WORegisterActor::Server).collect();
-            lockstep("WORegisterActor::Server", &base(&sc.sys, bare), &base(&sc.sys, wrapped), strip_server, sc.steps, sc.walk_seed)
+            use stateright::Representative;
+            lockstep_rep("WORegisterActor::Server", &base(&sc.sys, bare), &base(&sc.sys, wrapped), strip_server, sc.steps, sc.walk_seed, if sc.clamped { Some((|s| s.representative(), |s| s.representative())) } else { None })
         }
         _ => {
             // actor 0 is the scripted client, the others are peers
